@@ -22,6 +22,7 @@ import (
 	"go/build"
 	"go/importer"
 	"go/parser"
+	"go/printer"
 	"go/token"
 	"go/types"
 	"io"
@@ -41,6 +42,7 @@ type site struct {
 	KeyT, ValT      string
 	Class           string // CMapWrite | CAppendSorted | CAppendUnsorted | CBuilder | CNoEffect | COther
 	Targets         []string
+	Sorts           []string // the sort.* calls (whole call, comparator included) that order the targets after the loop
 	Why             string
 }
 
@@ -192,7 +194,7 @@ func scanFile(fset *token.FileSet, info *types.Info, pkg, fname string, f *ast.F
 				s := site{Pkg: pkg, File: fname, Func: name, Index: idx, Line: fset.Position(x.Pos()).Line,
 					Operand: types.ExprString(x.X), KeyT: typeStr(mt.Key()), ValT: typeStr(mt.Elem())}
 				idx++
-				classify(info, body, x, &s)
+				classify(fset, info, body, x, &s)
 				sites = append(sites, s)
 			case *ast.GoStmt:
 				nds = append(nds, nduse{Kind: "go", Pkg: pkg, File: fname, Func: name, Line: fset.Position(x.Pos()).Line})
@@ -271,6 +273,8 @@ type clsState struct {
 	bodyLoc map[types.Object]bool
 	rank    int
 	targets map[string]bool
+	sorts   map[string]bool
+	fset    *token.FileSet
 	why     []string
 }
 
@@ -283,8 +287,8 @@ func (c *clsState) bump(r int, why string) {
 	}
 }
 
-func classify(info *types.Info, fnBody *ast.BlockStmt, rng *ast.RangeStmt, s *site) {
-	c := &clsState{info: info, fnBody: fnBody, rng: rng, locals: map[types.Object]bool{}, bodyLoc: map[types.Object]bool{}, targets: map[string]bool{}}
+func classify(fset *token.FileSet, info *types.Info, fnBody *ast.BlockStmt, rng *ast.RangeStmt, s *site) {
+	c := &clsState{fset: fset, sorts: map[string]bool{}, info: info, fnBody: fnBody, rng: rng, locals: map[types.Object]bool{}, bodyLoc: map[types.Object]bool{}, targets: map[string]bool{}}
 	// objects declared by the range clause or inside the body are loop-local
 	for _, e := range []ast.Expr{rng.Key, rng.Value} {
 		if id, ok := e.(*ast.Ident); ok && rng.Tok == token.DEFINE {
@@ -311,6 +315,10 @@ func classify(info *types.Info, fnBody *ast.BlockStmt, rng *ast.RangeStmt, s *si
 		s.Targets = append(s.Targets, t)
 	}
 	sort.Strings(s.Targets)
+	for t := range c.sorts {
+		s.Sorts = append(s.Sorts, t)
+	}
+	sort.Strings(s.Sorts)
 	s.Why = strings.Join(c.why, "; ")
 }
 
@@ -599,6 +607,9 @@ func (c *clsState) sortedLater(target string) bool {
 			}
 			if types.ExprString(a0) == target {
 				found = true
+				var sb strings.Builder
+				printer.Fprint(&sb, c.fset, call)
+				c.sorts[strings.Join(strings.Fields(sb.String()), " ")] = true
 			}
 		}
 		return true
@@ -624,8 +635,12 @@ func emit(b *bytes.Buffer, sites []site, nds []nduse) {
 		for j, t := range s.Targets {
 			ts[j] = q(t)
 		}
-		fmt.Fprintf(b, "  mkSite %s %s %s %d %d %s %s %s %s [%s] %s%s\n", q(s.Pkg), q(s.File), q(s.Func), s.Index, s.Line,
-			q(s.Operand), q(s.KeyT), q(s.ValT), s.Class, strings.Join(ts, "; "), q(s.Why), sep)
+		ss := make([]string, len(s.Sorts))
+		for j, t := range s.Sorts {
+			ss[j] = q(t)
+		}
+		fmt.Fprintf(b, "  mkSite %s %s %s %d %d %s %s %s %s [%s] [%s] %s%s\n", q(s.Pkg), q(s.File), q(s.Func), s.Index, s.Line,
+			q(s.Operand), q(s.KeyT), q(s.ValT), s.Class, strings.Join(ts, "; "), strings.Join(ss, "; "), q(s.Why), sep)
 	}
 	fmt.Fprintf(b, "].\n\nDefinition nondet_uses : list nduse := [\n")
 	for i, n := range nds {
